@@ -221,27 +221,25 @@ class C14(Check):
                 ok, outs[idx] = guarded(c, 'result_independent_of_earlier_calls', Rp.solver.admm_update_z, args, u, x)
                 if not ok:
                     return
-            # the cached index lists must still be what a fresh computation gives
-            f = []
+            # the index lists handed out after the whole history ...
             uv = Rp.uv
+
+            def all_lists(N, W):
+                return [list(uv.locations_compressed(b, r, col, N, W))
+                        for b in range(W) for r in range(N) for col in range(r if b == 0 else 0, N)]
+            after_history = {idx: all_lists(*shapes[idx]) for idx in order}
+            f, g = [], []
             for idx in order:
+                loader.clear_caches()          # ... must be what a fresh import computes
                 N, W = shapes[idx]
-                for b in range(W):
-                    for r in range(N):
-                        for col in range(r if b == 0 else 0, N):
-                            f.append(list(uv.locations_compressed(b, r, col, N, W)) ==
-                                     list(uv.locations_compressed.__wrapped__(b, r, col, N, W)))
-            c.prove('cached_lists_not_mutated', all(f))
-            g = []
-            for idx in order:
-                loader.clear_caches()
-                N, W = shapes[idx]
+                f.append(after_history[idx] == all_lists(N, W))
                 x, u = inputs[idx]
                 args = Rp.arguments.ADMMArguments(window_size=W, num_data_series=N, rho=rho, rho_update=None,
                                                   sparsity_weight=lam, absolute_tolerance=1e-6,
                                                   relative_tolerance=1e-6, max_iterations=1, verbose=False)
                 fresh = Rp.solver.admm_update_z(args, u, x)
                 g += [R(a) == R(b_) for a, b_ in zip(fresh._flat(), outs[idx]._flat())]
+            c.prove('cached_lists_not_mutated', all(f))
             c.prove('result_independent_of_earlier_calls', conj(g))
         finally:
             Rp.solver.soft_threshold_prox = real_st
